@@ -7,6 +7,7 @@ package main
 
 import (
 	"bufio"
+	"strings"
 )
 
 func init() {
@@ -26,6 +27,21 @@ func init() {
 				}
 				c := &c05Case{verb: "c05parse", format: format, pkg: pkg, src: ro.Text}
 				c05Emit(out, c)
+				// the same text under a loader option set of its input kind (c05_popt.go)
+				if r.chance(60) {
+					file, first := "lab/schema.json", "path=lab/schema.json"
+					if format == "cue" {
+						file, first = "lab.cue", "value=lab.cue"
+					}
+					set := append([]string{first}, pick(r, c05POptionSets(format))...)
+					if format == "cue" && !strings.Contains(strings.Join(set, " "), "pkg=") {
+						set = append(set, "pkg="+pkg)
+					}
+					pc := &c05Case{verb: "c05popt", files: []c05PFile{{file, ro.Text}}, inputs: []c05PInput{{kind: format, opts: set}}}
+					if c05PResolve(pc) {
+						c05Emit(out, pc)
+					}
+				}
 				if len(d.Items) > 0 && r.chance(40) {
 					c2 := *c
 					c2.allowed = []string{pick(r, d.Items).Name}
